@@ -180,7 +180,8 @@ Proof.
     + rewrite <- EX.
       destruct (dirprefix_last abs g2) as (Y & EY).
       { destruct abs; auto. right. intros ->. discriminate. }
-      rewrite EY at 1 2 3. rewrite <- (app_assoc Y [47] c). simpl app at 2 4 6.
+      rewrite EY. rewrite <- (app_assoc Y [47] c).
+      change ([47] ++ c) with (47 :: c).
       rewrite (split_last_app is_slash Y 47 c eq_refl (slashfree_of_sepfree c Hc2)).
       rewrite <- EY.
       destruct (prefix_eqb (dirprefix abs g2) (render (abs, ts))) eqn:P.
@@ -203,21 +204,22 @@ Qed.
 
 Lemma initial_sf abs fs :
   Forall wfc fs ->
-  (let simFrom := render (abs, fs) in
-   if nonempty simFrom && negb (str_eqb simFrom [47]) then simFrom ++ [47] else simFrom)
+  (if nonempty (render (abs, fs)) && negb (str_eqb (render (abs, fs)) [47])
+   then render (abs, fs) ++ [47] else render (abs, fs))
   = dirprefix abs fs.
 Proof.
-  intro H. cbv zeta. rewrite render_absP. unfold dirprefix.
+  intro H. rewrite render_absP. unfold dirprefix.
   destruct fs as [|c fs].
   - simpl. rewrite !app_nil_r. destruct abs; reflexivity.
   - assert (J : join (c :: fs) <> []).
     { inversion H as [|? ? [Hc _] _]; subst. destruct fs; simpl; [auto|]. destruct c; [contradiction|discriminate]. }
     assert (N : nonempty (absP abs ++ join (c :: fs)) = true).
-    { destruct abs; simpl; [reflexivity|]. destruct (join (c :: fs)); [contradiction|reflexivity]. }
+    { destruct abs; [reflexivity|]. unfold absP. rewrite app_nil_l.
+      destruct (join (c :: fs)); [contradiction|reflexivity]. }
     assert (D : str_eqb (absP abs ++ join (c :: fs)) [47] = false).
-    { apply str_eqb_neq. intro E. destruct abs; simpl in E.
-      - inversion E. contradiction.
-      - pose proof (join_head c fs H) as JH. rewrite E in JH. discriminate. }
+    { apply str_eqb_neq. intro E. destruct abs; unfold absP in E.
+      - change ([47] ++ join (c :: fs)) with (47 :: join (c :: fs)) in E. inversion E. contradiction.
+      - rewrite app_nil_l in E. pose proof (join_head c fs H) as JH. rewrite E in JH. discriminate. }
     rewrite N, D. simpl andb. cbv iota. rewrite <- app_assoc. f_equal. apply join_slash. discriminate.
 Qed.
 
@@ -238,11 +240,11 @@ Proof.
       exists fs, [], r. rewrite app_nil_r. repeat split; auto.
     + destruct (rel_loop_sound abs ts Hts (S (length (dirprefix abs fs))) fs UP Hfs) as (g' & dropped & r & -> & Hd & -> & E); auto.
       * unfold dirprefix. rewrite app_length.
-        assert (L : (length fs <= length (concat (map (fun c => c ++ [47]) fs)))%nat).
+        assert (L : (length fs <= length (concat (map (fun c : list Z => c ++ [47%Z]) fs)))%nat).
         { clear. induction fs as [|c fs IH]; simpl; auto. rewrite !app_length. simpl. lia. }
         lia.
       * exists g', dropped, r. repeat split; auto. rewrite E.
-        destruct dropped as [|d dropped]; [contradiction|]. simpl length. rewrite Nat.sub_0_r. reflexivity.
+        destruct dropped as [|d dropped]; [contradiction|]. cbn [length]. replace (S (length dropped) - 1)%nat with (length dropped) by lia. cbn [ups]. rewrite <- app_assoc. reflexivity.
 Qed.
 
 (* ---- what the answer denotes ------------------------------------------------------------------- *)
@@ -254,27 +256,37 @@ Proof.
   unfold norm_step at 2. simpl. apply str_eqb_neq in Hx. rewrite Hx. apply IH; auto.
 Qed.
 
-Lemma components_joined from y :
-  from <> [] -> components (rel_joined from y) = (starts_with_sep from, toks from ++ toks y).
+Lemma starts_with_sep_ups_join m r : Forall wfc r -> starts_with_sep (ups m ++ join r) = false.
 Proof.
-  intro H. unfold rel_joined. rewrite components_eq. rewrite toks_app by reflexivity.
-  rewrite starts_with_sep_app by auto. reflexivity.
+  intro H. destruct m as [|m]; [|reflexivity]. simpl.
+  destruct r as [|c r]; [reflexivity|]. apply join_head; auto.
+Qed.
+
+(* the tokens and the kind of `from` followed by a relative text y *)
+Lemma components_joined from y :
+  starts_with_sep y = false ->
+  components (rel_joined from y) = (starts_with_sep from, toks from ++ toks y).
+Proof.
+  intro Hy. unfold rel_joined. destruct from as [|c from'].
+  - rewrite components_eq, Hy. reflexivity.
+  - set (from := c :: from'). rewrite components_eq. rewrite toks_app by reflexivity. reflexivity.
 Qed.
 
 Lemma denotes from abs g' dropped r :
-  from <> [] -> starts_with_sep from = abs ->
+  starts_with_sep from = abs ->
   fold_left norm_step (toks from) [] = rev (g' ++ dropped) ->
   Forall plain (g' ++ dropped) -> Forall wfc r -> nf (rev (g' ++ r)) ->
   simplifyPath (rel_joined from (ups (length dropped) ++ join r)) = render (abs, g' ++ r).
 Proof.
-  intros Hne Habs Ef Hplain Hr Hnf. rewrite simplify_spec. unfold canon.
-  rewrite components_joined by auto. rewrite toks_ups, toks_join by auto.
+  intros Habs Ef Hplain Hr Hnf. rewrite simplify_spec. unfold canon.
+  rewrite components_joined by (apply starts_with_sep_ups_join; auto).
+  rewrite toks_ups, toks_join by auto.
   unfold normalise. cbn [fst snd]. rewrite Habs. f_equal. f_equal.
   rewrite !fold_left_app, Ef. rewrite rev_app_distr.
   apply Forall_app in Hplain as [Hg Hd].
   rewrite <- (rev_length dropped). rewrite pops by (apply Forall_rev; auto).
   pose proof (fold_norm_nf_fix _ Hnf) as F. rewrite rev_involutive in F.
-  rewrite fold_left_app in F. rewrite fold_norm_plain in F by auto. rewrite app_nil_r in F.
+  rewrite fold_left_app in F. rewrite (fold_norm_plain g' [] Hg) in F. rewrite app_nil_r in F.
   rewrite F. apply rev_involutive.
 Qed.
 
@@ -296,8 +308,7 @@ Lemma relative_path_denotes_target_l from to :
   rel_hyp from to = true ->
   simplifyPath (rel_joined from (getRelativePath from to)) = simplifyPath to.
 Proof.
-  unfold rel_hyp. intro H. apply andb_true_iff in H as [H H3]. apply andb_true_iff in H as [H1 H2].
-  assert (Hne : from <> []) by (destruct from; [discriminate|discriminate]).
+  unfold rel_hyp. intro H. apply andb_true_iff in H as [H2 H3].
   apply Bool.eqb_prop in H2.
   set (abs := starts_with_sep from) in *.
   set (F := fold_left norm_step (toks from) []).
@@ -316,7 +327,7 @@ Proof.
   destruct (relpath_shape abs (rev F) (rev T) from to) as [[E1 E2]|(g' & dropped & r & Eg & Er & E)];
     auto using Forall_rev.
   - (* equal after simplification: "." *)
-    rewrite E1, <- E2. rewrite simplify_spec. unfold canon. rewrite components_joined by auto.
+    rewrite E1, <- E2. rewrite simplify_spec. unfold canon. rewrite components_joined by reflexivity.
     unfold normalise. cbn [fst snd]. rewrite fold_left_app. simpl fold_left.
     rewrite simplify_spec. unfold canon, normalise. rewrite components_eq. reflexivity.
   - rewrite E, Et, Er.
